@@ -126,6 +126,11 @@ def run_swarm(case):
                             expect_args[u] = list(vals)
                     # add an entry for a URI that is not part of the swarm
                     args_dict['radio://not-a-member'] = ['x']
+                missing = call['args'] == 'missing' and call['mode'] == 'parallel' and bool(uris)
+                if missing:
+                    # a dictionary that lacks one member's entry: what the members then do is not specified, only
+                    # that parallel() still does not raise
+                    del args_dict[uris[call['nargs'] % len(uris)]]
                 prev_args = (args_dict, expect_args)
                 events = []
                 running = set()
@@ -152,6 +157,15 @@ def run_swarm(case):
                 except Exception as e:  # noqa
                     exc = e
                 cdesc = '%s call %d %s args=%s fail=%r' % (desc, ci, call['mode'], call['args'], call['fail'])
+                if missing:
+                    if exc is not None:
+                        out.fail('swarm:parallel-raised', '%s (one entry missing): %r' % (cdesc, exc))
+                    for lt in list(s.threads):   # let any member thread that was started run to its end before the next call
+                        if lt is not s.main:
+                            lt.thread.join()
+                    prev_args = None
+                    shared_or_reused = True
+                    continue
                 starts = [e for e in events if e[0] == 'start']
                 fails_here = [u for u in uris if u in call['fail']]
                 if call['mode'] == 'sequential' and fails_here:
@@ -219,7 +233,7 @@ def swarm_case(draw):
     if not open_fail:
         for _ in range(draw(st.integers(1, 4))):
             calls.append({'mode': draw(st.sampled_from(['sequential', 'parallel', 'parallel_safe', 'parallel_safe'])),
-                          'args': draw(st.sampled_from(['none', 'fresh', 'fresh', 'reuse', 'shared'])), 'nargs': draw(st.integers(0, 3)),
+                          'args': draw(st.sampled_from(['none', 'fresh', 'fresh', 'reuse', 'shared', 'missing'])), 'nargs': draw(st.integers(0, 3)),
                           'fail': draw(st.one_of(st.just([]), st.lists(st.sampled_from(uris), unique=True, max_size=3))) if uris else [],
                           'yields': draw(st.integers(0, 3))})
     return {'uris': uris, 'open_fail': open_fail, 'open_yields': draw(st.integers(0, 2)), 'calls': calls, 'schedule': draw(_sched)}
